@@ -169,6 +169,24 @@ def kf_match(k, case):
         text = case["observed"].get("text", "") if isinstance(case.get("observed"), dict) else ""
         manifest = case["observed"]["r"] == "ok" or "not allowed in" in text
         return manifest and bool(ends_out) and any(l["k"] == "call" and l["n"] in ends_out for l in case["prog"])
+    if kind == "macro-messages-listed-last":
+        # what the finding looks like: the build succeeds with the right images and the right messages, those of macro
+        # bodies listed after all others (each group in its own order); anything else is not this finding
+        obs, exp = case.get("observed"), case.get("expected")
+        if not (isinstance(obs, dict) and isinstance(exp, dict) and obs.get("r") == "ok" and exp.get("ok")):
+            return False
+        em = exp.get("msgs") or []
+        deferred = [m for m in em if m["at"] == m["ln"]] + [m for m in em if m["at"] != m["ln"]]
+        om = obs.get("msgs") or []
+        if deferred == em or len(om) != len(em):
+            return False
+        for m, o in zip(deferred, om):
+            if not (o.endswith("line: %d" % m["ln"]) and (": %s in line" % m["txt"]) in o):
+                return False
+        for img in ("code", "eeprom"):
+            if img in exp and isinstance(obs.get(img), str) and bytes(exp[img]).hex() != obs[img].lower():
+                return False
+        return True
     if kind == "org-zero-after-content":
         return (case["observed"]["r"] == "ok" and not case["expected"].get("ok")
                 and any(l["k"] == "org" and l["e"] == {"t": "num", "v": 0} for l in case["prog"]))
